@@ -94,7 +94,11 @@ def tick_fold(L, repo):
         for P in (102, 51, 7, 1):
             srcs = sorted({0, 1, P - 1, P, P + 1, 2 * P, H - 1, (H - 1) - ((H - 1) % P)} & set(range(H)))
             for src in srcs:
-                for nl in (0, 1, 3):
+                for nl in (0, 1, 3, -3):
+                    # (-3: three links whose send() reports the number of octets written - whatever a link's send() returns,
+                    # the others still get the indication)
+                    sendret = None if nl >= 0 else 16
+                    nl = abs(nl)
                     for handler in (True, False):
                         links = [Opaque("LINK%d" % i) for i in range(nl)]
                         sent, hcalls = [], []
@@ -111,7 +115,7 @@ def tick_fold(L, repo):
                                       "self.clck_handler": Opaque("HANDLER") if handler else None})
                         e.hooks = {"HANDLER": lambda a, hc=hcalls: hc.append(tuple(a)), "self.clck_handler": lambda a, hc=hcalls: hc.append(tuple(a))}
                         for i in range(nl):
-                            e.hooks["LINK%d.send" % i] = (lambda a, i=i, sn=sent: sn.append((i, a[0] if a else None)))
+                            e.hooks["LINK%d.send" % i] = (lambda a, i=i, sn=sent, r_=sendret: (sn.append((i, a[0] if a else None)), r_)[1])
                         e.run_block(fd.body)
                         rows.append((P, src, nl, handler, sent, hcalls, e.env.get("self.clck_src")))
     except (Unknown, Raised):
